@@ -30,6 +30,11 @@ func (h HTTPPayload) MarshalJSON() ([]byte, error) {
 	case TypeHttpRequest:
 		harRequest, err := har.NewRequest(h.Data.(*http.Request), true)
 		if err != nil {
+			// The body is not what the headers announce (a malformed form or multipart
+			// body): report the request without its post data rather than not at all.
+			harRequest, err = har.NewRequest(h.Data.(*http.Request), false)
+		}
+		if err != nil {
 			return nil, errors.New("Failed converting request to HAR")
 		}
 		sort.Slice(harRequest.Headers, func(i, j int) bool {
@@ -68,6 +73,11 @@ func (h HTTPPayload) MarshalJSON() ([]byte, error) {
 		})
 	case TypeHttpResponse:
 		harResponse, err := har.NewResponse(h.Data.(*http.Response), true)
+		if err != nil {
+			// The body cannot be decoded (e.g. Content-Encoding: gzip on a body that is not
+			// gzip): report the response without its content rather than not at all.
+			harResponse, err = har.NewResponse(h.Data.(*http.Response), false)
+		}
 		if err != nil {
 			return nil, errors.New("Failed converting response to HAR")
 		}
